@@ -35,6 +35,17 @@ pub fn dispatch(args: &[String]) -> i32 {
         "sched-scan" => crate::sched::scan(&args[1..]),
         "sched-xcheck" => crate::sched::xcheck(&args[1..]),
         "selfcheck" => selfcheck(),
+        "pop-trace" => {
+            // diagnostic: `mc pop-trace <family> <first idx> <count> <dd lel|fc|pooled> <nodup 0|1>`: single-worker parallel runs with a cache
+            let fam = family(&args[1]);
+            let (i0, n): (u64, u64) = (args[2].parse().unwrap(), args[3].parse().unwrap());
+            let dd = match args[4].as_str() { "fc" => DdKind::Fc, "pooled" => DdKind::Pooled, _ => DdKind::Lel };
+            let cfg = Cfg { dd, cache: true, nodup: args[5] == "1", width: 1 };
+            crate::rec::install_light_hook();
+            for idx in i0..i0 + n { let m: std::sync::Arc<dyn Model> = std::sync::Arc::from(fam.build(idx, Variant::BASE)); eprintln!("--- {} #{}", args[1], idx); let o = run_par(m.clone(), &RunSpec::plain(cfg), 1); eprintln!("    -> {:?} (optimum {:?})", o.map(|o| (o.best_value, o.explored)), m.opt()); }
+            println!("pops {} re-pops with a better value {}", crate::rec::POPS.load(std::sync::atomic::Ordering::SeqCst), crate::rec::REPOPS_BETTER.load(std::sync::atomic::Ordering::SeqCst));
+            0
+        }
         "bench-par1" => {
             let fam = family("TM-B4");
             let cfg = Cfg { dd: DdKind::Lel, cache: false, nodup: false, width: 1 };
@@ -363,10 +374,20 @@ fn c09(tier: &str) -> i32 {
     let (agg, scopes, complete) = run_plans(&rep, &["C09"], &plans, deadline(&rep, 40, 1200));
     let (par_cov, par_ok) = crate::sched::c09_parallel_part(&rep);
     let (all_cov, all_ok, _, _) = crate::sched::all_part(&rep, "C09", crate::sched::CutMode::None, false, true, 10.0, 400.0);
-    let (a1, s1, c1) = run_plans(&rep, &["C09"], &par1_plans(th, Mode::Plain, false), deadline(&rep, 12, 600));
+    // caching configurations only, the re-convergent families first (a threshold recorded at pop time only matters when the same
+    // (state, depth) is reached again later with another value -- own mutant m25b)
+    let mut p1 = par1_plans(th, Mode::Plain, true);
+    if !th {
+        // quick tier: what fits in the budget, shared between the re-convergent families
+        p1.retain(|p| { let n = p.fam.name(); n != "SP-3" && n != "SP-4" && n != "TM-0b" });
+        for p in p1.iter_mut() { let n = p.fam.name(); let n: &str = &n; p.limit = match n { "KP-4" => Some(1200), "TM-B4" => Some(1000), "KP-3" => Some(600), _ => p.limit }; }
+    }
+    let (a1, s1, c1) = run_plans(&rep, &["C09"], &p1, deadline(&rep, 14, 600));
     let mut cov = cov_common(&agg, scopes, complete && par_ok && c1 && all_ok);
     cov["all_interleavings_part"] = all_cov;
     cov["parallel_single_worker_part"] = par1_cov(&a1, s1, c1);
+    cov["parallel_single_worker_part"]["sub_problems_popped"] = json!(crate::rec::POPS.load(std::sync::atomic::Ordering::SeqCst));
+    cov["parallel_single_worker_part"]["sub_problems_popped_again_with_a_better_value"] = json!(crate::rec::REPOPS_BETTER.load(std::sync::atomic::Ordering::SeqCst));
     cov["evaluations"] = json!(agg.runs);
     cov["distinct_nontrivial"] = json!(agg.cache_twin_diff_explored);
     cov["rule"] = json!("sequential part: re-convergent families (butterfly tables, depth-free states, seeds neighbourhoods) x model variants x FULL diagram x fringe x width, SimpleCache vs EmptyCache twins: both must equal the oracle with a feasible solution, the twins must agree, and the recording cache wrapper checks the contract (depths in range); different rankings and the two fringes induce different processing orders; non-trivial = twin pairs in which the cache changed the number of explored sub-problems (i.e. a threshold really pruned something); parallel part: see parallel_part (cache operations outside critical sections are scheduling points)");
